@@ -1940,7 +1940,7 @@ generate(int f, int depth, int (*policy)(const struct op *, int, int *, int *)) 
   gen_rec(&g, ops, 0);
 }
 
-static int T_full_depth, T_free_depth, T_lives3_depth, T_double_depth;
+static int T_full_depth, T_free_depth, T_lives3_depth, T_double_depth, T_deldeep_depth = 6;
 static int T_rst_full_depth, T_rst_free_depth, T_rst_lives3_depth, T_rst_kill_depth, T_rst2_depth, T_rst2_kill;
 static int
 policy(const struct op *ops, int n, int *bound, int *lives) {
@@ -1968,6 +1968,25 @@ policy(const struct op *ops, int n, int *bound, int *lives) {
     } else
       return 0;
     return 1;
+  }
+  if (n > T_full_depth && n <= T_deldeep_depth && ops[n - 1].t == OP_DEL && gen_f == 10) {
+    /* deeper family: only put / reg operations (optionally one change of another resource just before), then the deletion of a resource while another resource is observed, with
+     * the kill points of that deletion (the deletion updates all three files; records of other resources must survive
+     * whichever of its renames is the last one made) */
+    int ok = 1, regs_other = 0;
+    for (int i = 0; i < n - 1; i++) {
+      if (ops[i].t != OP_PUT && ops[i].t != OP_REG && !(ops[i].t == OP_CHG && i == n - 2 && ops[i].r != ops[n - 1].r && ops[i].c == 1))
+        ok = 0;
+      if (ops[i].r == R_D3 || (ops[i].t == OP_REG && ops[i].p != P_1))
+        ok = 0; /* two dynamic resources and one observer are enough for this family */
+      if (ops[i].t == OP_REG && ops[i].r != ops[n - 1].r)
+        regs_other++;
+    }
+    if (ok && regs_other) {
+      *bound = 1;
+      *lives = 2;
+      return 1;
+    }
   }
   if (n <= T_double_depth) {
     *bound = 2; /* a kill in life 1 and a kill in the restart */
@@ -2024,6 +2043,8 @@ main(int argc, char **argv) {
     T_rst2_kill = atoi(e);
   static const int freqs[3] = {1, 2, 10};
   int maxd = T_full_depth > T_free_depth ? T_full_depth : T_free_depth;
+  if (maxd < T_deldeep_depth)
+    maxd = T_deldeep_depth;
   gen_rst_depth = T_rst_full_depth > T_rst_free_depth ? T_rst_full_depth : T_rst_free_depth;
   gen_rst_kill_depth = T_rst_kill_depth < gen_rst_depth ? T_rst_kill_depth : gen_rst_depth;
   gen_rst_max = gen_rst_depth < 2 ? 0 : T_rst2_depth >= 3 ? 2 : 1;
@@ -2053,7 +2074,8 @@ main(int argc, char **argv) {
              "own process; crash points = a kill before every tracked stdio/rename/remove call of the history's last operation plus after the last "
              "call (kills in earlier operations are the crash points of the shorter history), then restart in a fresh process; short histories "
              "additionally kill the restart itself before each of its calls and restart again; "
-             "restart-free histories: kill points up to %d operations (kill in the judged restart up to %d, in both up to %d), kill-free up to %d; "
+             "restart-free histories: kill points up to %d operations (kill in the judged restart up to %d, in both up to %d), kill-free up to %d, plus the "
+             "family 'put / reg operations only, optionally one change of another resource, then a deletion while another resource is observed' (save_freq 10, resources s1/d1/d2, one observer) with the deletion's kill points up to 6 operations; "
              "histories that CONTINUE after a restart: a marker between two operations (never first or last) ends the server process - "
              "stop+restart = coap_persist_stop + coap_free_context, kill+restart = process death between two operations - and "
              "the next operations run in a fresh process after coap_persist_startup on the same three files, on the restored resources / "
